@@ -8,6 +8,8 @@ behaviour (stated per rewrite), so a property that holds of the rewritten tree h
 found in it is a violation of the source.  Line numbers of moved statements are kept, so reports still point at the
 text that is really there.
 
+  R0  decorators     a function decorated with a plain wrapper decorator of the same module is replaced by what the decorated name does:
+                     the wrapper's body with the original function (kept under <name>__undecorated, then inlined by R4) in place of its parameter.
   R1  constants      module-level / class-level NAME = <immutable constant expression>, bound once and never
                      rebound (no other store, no `global`), is replaced by its value where the name is not shadowed.
   R2  stable alias   a local bound once to `self.<attr>` where <attr> is only ever stored in __init__ is replaced by
@@ -1411,6 +1413,58 @@ class Inliner:
                     self.dropped = getattr(self, 'dropped', []) + [qual]
                     changed = True
 
+# ------------------------------------------------------------------------------------------------- R0 wrapper decorators
+def _expand_decorators(tree, report):
+    """@deco def f(p..): B   with   def deco(fn): [@functools.wraps(fn)] def w(q..): W ; return w   (w has f's arity, no star parameters)
+    becomes   def f__undecorated(p..): B ;  def f(p..): W[q := p, fn := f__undecorated]   -- what the decorated name does when called.
+    The undecorated body is then inlined by R4 wherever W calls it."""
+    funcs = {n.name: n for n in tree.body if isinstance(n, ast.FunctionDef)}
+    def wrapper_of(d):
+        body = [s_ for s_ in d.body if not (isinstance(s_, ast.Expr) and isinstance(s_.value, ast.Constant))]
+        if len(d.args.args) != 1 or d.args.vararg or d.args.kwarg or len(body) != 2:
+            return None
+        w, r = body
+        if not (isinstance(w, ast.FunctionDef) and isinstance(r, ast.Return) and isinstance(r.value, ast.Name) and r.value.id == w.name):
+            return None
+        for dec in w.decorator_list:
+            if not (isinstance(dec, ast.Call) and ast.unparse(dec.func) in ('functools.wraps', 'wraps')):
+                return None
+        if w.args.vararg or w.args.kwarg or w.args.kwonlyargs or w.args.posonlyargs:
+            return None
+        return w
+    new_body = []
+    for n in tree.body:
+        if isinstance(n, ast.FunctionDef) and len(n.decorator_list) == 1 and isinstance(n.decorator_list[0], ast.Name) and n.decorator_list[0].id in funcs:
+            d = funcs[n.decorator_list[0].id]
+            w = wrapper_of(d)
+            if w is not None and len(w.args.args) == len(n.args.args) and not (n.args.vararg or n.args.kwarg or n.args.kwonlyargs):
+                inner = copy.deepcopy(n)
+                inner.name = n.name + '__undecorated'
+                inner.decorator_list = []
+                fnparam = d.args.args[0].arg
+                mapping = {fnparam: inner.name}
+                for wp, fp in zip(w.args.args, n.args.args):
+                    if wp.arg != fp.arg:
+                        mapping[wp.arg] = fp.arg
+                bound_w = _bound_names(w)
+                if any(v in bound_w and k != v for k, v in mapping.items() if k != fnparam):
+                    new_body.append(n)          # renaming would capture a local of the wrapper
+                    continue
+                wb = [_Renamer(mapping).visit(copy.deepcopy(s_)) for s_ in w.body]
+                outer = ast.FunctionDef(name=n.name, args=copy.deepcopy(n.args), body=wb, decorator_list=[], returns=n.returns, type_comment=None)
+                ast.copy_location(outer, n)
+                for x in ast.walk(outer):
+                    if isinstance(x, (ast.expr, ast.stmt)) and not hasattr(x, 'lineno'):
+                        ast.copy_location(x, n)
+                new_body.append(inner)
+                new_body.append(outer)
+                report.setdefault('decorators_expanded', []).append(n.name)
+                continue
+        new_body.append(n)
+    tree.body = new_body
+    return tree
+
+
 # ------------------------------------------------------------------------------------------------- driver
 def exported_constants(tree):
     return collect_constants(tree).module
@@ -1424,6 +1478,7 @@ def normalize_module(name, tree, sibling_consts=None):
             for al in st.names:
                 if al.name in sibling_consts[st.module]:
                     imported[al.asname or al.name] = sibling_consts[st.module][al.name]
+    tree = _expand_decorators(tree, report)
     info = collect_constants(tree, imported)
     cp = _ConstProp(info)
     tree = cp.visit(tree)
